@@ -170,6 +170,12 @@ def skeleton(eng, name, P):
         b2 = [('BF', TS, bf_opts(eng, '0', ['ok', 'raise_after'], catch=P.get('catch', True)), [])]
         tail = [q_hole(eng, '0', kinds, [P1, TS])]
         return [b1 + tail, b2 + tail] if first == 0 else [b2 + tail, b1 + tail]
+    if name == 'A11':
+        # the second build asks about a directory that only holds obsolete outputs of the first, then builds a new output in it
+        b1 = [('BF', T2, {'mode': 'ok'}, [])]
+        b2 = [q_hole(eng, '0', kinds, [P1, TS]), ('BF', 'o/d/r', bf_opts(eng, '0', ['ok', 'raise_after'], catch=True), []),
+              q_hole(eng, '1', kinds, [P1, TS])]
+        return [b1, b2]
     if name == 'A8d':
         # the second build first rebuilds another output (different function), then turns a directory of outputs into a file
         b1 = [('BF', T1, {'mode': 'ok', 'name': 'f-old'}, []), ('BF', T2, {'mode': 'ok'}, []), ('BF', 'o/d/h', {'mode': 'ok'}, [])]
